@@ -356,10 +356,8 @@ def printable(q):
 
 # ---------------------------------------------------------------- the check
 def build_harness(ck):
-    if not os.path.isdir(vlib.BUILD):
-        # scratch worktrees have no build tree: generated headers and prebuilt libraries come from
-        # /repo/_build (FRAMEWORK.md); everything under test is compiled from vlib.REPO below
-        vlib.BUILD = "/repo/_build"
+    # a scratch worktree has no build tree: vlib.BUILD then is /repo/_build (generated headers, prebuilt
+    # libraries); everything under test is compiled from vlib.REPO below
     R = vlib.REPO
     inc = [R + "/tfel-check/include", R + "/mtest/include", R + "/mfront/include", vlib.BUILD + "/mfront/include"]
     srcs = [("harness", "C51/harness.cxx")] + \
@@ -431,6 +429,8 @@ def run(ck):
         if a == "io-mismatch":
             io_mismatch += 1
             continue
+        if a == "missing" or m == "missing":
+            continue   # a crash of the harness/driver is reported once, above
         why = property_of(q, a) if a != "missing" else None
         differs = a != m
         if not differs and why is None:
